@@ -242,6 +242,7 @@ def run_concurrent(sim, specs, chooser, shared_prefixes=()):
         r.clock = []
         r.replies = []
         r.prompted = []
+        r.stdin_read = p.stdio.inb.tell() > 0
         sim.log.append(r.as_log())
         sim.ops_total += r.nops
         sim.sims_total += 1
